@@ -266,7 +266,18 @@ class NDArray:
         if n is None:
             raise_(TypeError, 'iteration over a 0-d array')
         if is_sym(n):
+            n0 = n
             n = concretise_int(n)
+            if n is None:
+                # a selection out of a small concrete number of positions (compressed() of a short row): one path per possible length
+                sel = getattr(self, 'selection', None)
+                total = getattr(sel, 'total', None)
+                if isinstance(total, int) and total <= 8:
+                    c = core.ctx()
+                    for k in range(total + 1):
+                        if c.branch(zint(n0) == k):
+                            n = k
+                            break
             if n is None:
                 raise Unsupported('iteration over an array with symbolic first extent')
         return iter([self._getitem_norm((k,), check=False) for k in range(n)])
@@ -635,7 +646,9 @@ class NDArray:
 
     def _store_region(self, idx, value):
         """-> (region(i) -> bool|SBool, val_at(i) -> element)."""
-        idx = list(idx)
+        idx = [i._int() if isinstance(i, MaskedOr) else i for i in idx]       # an element read from a masked array used as an index
+        if isinstance(value, MaskedOr):
+            value = value._int()
         if len(idx) == 1 and isinstance(idx[0], NDArray) and idx[0].dtype.kind == 'b':
             m = idx[0]
             if m.ndim != self.ndim:
